@@ -723,7 +723,7 @@ func c39Directed() []c39Script {
 }
 
 func runC39(args []string) {
-	f := verifx.ParseFlags("c39", args, 130, 1500)
+	f := verifx.ParseFlags("c39", args, 130, 1000)
 	out := verifx.NewOut()
 	ctx := context.Background()
 	directed := c39Directed()
